@@ -400,20 +400,33 @@ def _declare_const_factor(b, kind, pre, R, D):
         raise ValueError(kind)
 
 
+# sequences of the fixed quick list that need more than ~25 s (measured) are left to the thorough tier
+QUICK_SLOW = {"mul-pdfL1.q-li_light.mul-conjL2", "mul-conjF2.q-gd.had-conjF1.had-lineL1.had-onerL2", "had-onerL1.had-onerF2.mul-lineL1.had-onerF1",
+              "norm.q-ix.mul-onerF1.mul-onerF1.mul-lineF1", "norm.q-ev.dens.mul-measF2.mul-pdfL1", "slm10.had-measL2.had-onerL2.norm"}
+
+
 def history_cases(tier, seed):
+    """The sequences are drawn from FIXED generator seeds (not VERIF_SEED), so that the set of harnesses -- and their cost,
+    which varies by orders of magnitude between sequences -- is the same on every run; VERIF_SEED still selects the
+    self-check points and the generic rationals of the semi-symbolic factors."""
     import random
     out = []
-    rng = random.Random(1000 + seed)
-    n, lens = (24, (3, 4, 5)) if tier == "quick" else (120, (3, 4, 5, 6, 7, 8))
+    rng = random.Random(1000)
+    n, lens = (24, (3, 4, 5)) if tier == "quick" else (24 + 96, (3, 4, 5, 6, 7, 8))
     seen = set()
     while len(out) < n:
-        ln = rng.choice(lens)
+        if len(out) == 24:
+            rng = random.Random(2000)
+            lens = (3, 4, 5, 6, 7, 8)
+        ln = rng.choice((3, 4, 5) if len(out) < 24 else lens)
         R0, seq = gen_history(rng, ln)
         nm = (R0, _seq_name(seq))
         if nm in seen or not any(o[0] in ("mul", "had") for o in seq):
             continue
         seen.add(nm)
         out.append(history_case(R0, seq, semi_after=2 if ln <= 5 else 1, timeout=900 if tier == "quick" else 1800))
+    if tier == "quick":
+        out = [c for c in out if c.id.split("/", 3)[-1] not in QUICK_SLOW]
     return out
 
 
